@@ -253,19 +253,49 @@ func benignNarrowing(w *World, x *ssa.Convert) string {
 	//     — recognised by what happens to the value: it is only ever the value argument of
 	//     binary.*.PutUint16 and it is non-negative
 	if b, ok := x.Type().Underlying().(*types.Basic); ok && b.Kind() == types.Uint16 && len(*x.Referrers()) > 0 {
-		onlyPut := true
-		for _, r := range *x.Referrers() {
-			call, isC := r.(*ssa.Call)
-			if !isC || !strings.HasSuffix(stdCallee(&call.Call), ".PutUint16") || len(call.Call.Args) < 3 || call.Call.Args[2] != ssa.Value(x) {
-				onlyPut = false
+		// ... directly, or packed into a wider word first (widened, shifted, or-ed) that is
+		// itself only ever written out
+		var onlyPacked func(v ssa.Value, d int) bool
+		onlyPacked = func(v ssa.Value, d int) bool {
+			if v.Referrers() == nil || len(*v.Referrers()) == 0 || d > 4 {
+				return false
 			}
+			for _, r := range *v.Referrers() {
+				switch u := r.(type) {
+				case *ssa.DebugRef:
+				case *ssa.Call:
+					if !strings.Contains(stdCallee(&u.Call), "(encoding/binary.") || !strings.Contains(stdCallee(&u.Call), ".PutUint") || len(u.Call.Args) < 3 || u.Call.Args[2] != v {
+						return false
+					}
+				case *ssa.Convert:
+					if unsignedWidth(u.Type()) < unsignedWidth(v.Type()) || !onlyPacked(u, d+1) {
+						return false
+					}
+				case *ssa.BinOp:
+					switch u.Op {
+					case token.OR, token.SHL:
+						if (u.Op == token.SHL && u.X != v) || !onlyPacked(u, d+1) {
+							return false
+						}
+					default:
+						return false
+					}
+				default:
+					return false
+				}
+			}
+			return true
 		}
+		onlyPut := onlyPacked(x, 0)
 		if onlyPut && w.absint().rangeAt(x.X, x, 3).lo >= 0 {
 			return "16-bit wire field: a non-negative length is written with binary.PutUint16 and used for nothing else (the codec's documented domain is payloads up to 65535 bytes, C11)"
 		}
 	}
-	if fn.Name() == "WriteHeader" && false {
-		return ""
+	// (3b) cutting a field out of a wire word: the conversion keeps whole low bytes of a
+	//     big-endian word read from a buffer (h := Uint32(buf[:4]); uint16(h)) — the bytes
+	//     dropped are another field, not part of this number
+	if _, off, k, ok := w.wireField(x); ok {
+		return fmt.Sprintf("field extraction: the value is bytes [%d,%d) of a big-endian word read from a buffer, the bytes cut off belong to a neighbouring field", off, off+k)
 	}
 	// (4) Lifetime seconds → uint32 (RFC 5766 32-bit field), time.Now millis → uint64
 	if fn.Name() == "AddTo" || fn.Name() == "Generate" {
